@@ -93,7 +93,9 @@ func init() {
 		Gen:   func(r *vf.Rand) any { return noNegZero(float64(int64(r.Uint64()>>40)) / 8 * float64(1-2*r.Intn(2))) },
 		Small: func(r *vf.Rand) any { return float64(r.Intn(4)) + 0.5 }, Cmp: cmpOrdered[float64]})
 	regCol(&colType{Name: "float32", Typ: reflect.TypeOf(float32(0)), Key: true,
-		Gen:   func(r *vf.Rand) any { return float32(noNegZero(float64(float32(int64(r.Uint64()>>48)) / 4 * float32(1-2*r.Intn(2))))) },
+		Gen: func(r *vf.Rand) any {
+			return float32(noNegZero(float64(float32(int64(r.Uint64()>>48)) / 4 * float32(1-2*r.Intn(2)))))
+		},
 		Small: func(r *vf.Rand) any { return float32(r.Intn(4)) + 0.25 }, Cmp: cmpOrdered[float32]})
 	regCol(&colType{Name: "string", Typ: reflect.TypeOf(""), Key: true,
 		Gen: func(r *vf.Rand) any {
